@@ -142,6 +142,9 @@ def role_coherence(facts, fn, sr, call, op, slots, res, R="C02.1.role-coherence"
     if len(allrec) == 2 and _same_source_run(facts, fn, call, recs):
         res.instance(R, key0 + ":record", facts.loc(call), "the source is looked up once for a run of records with the same source index (scan `[e].indexSrc == key`), targets and codes come from each record of the run")
         allrec = set()
+    if len(allrec) == 2 and _same_target_run(facts, fn, sr, call, recs, slots):
+        res.instance(R, key0 + ":record", facts.loc(call), "the target is the one of the first record of a run; the sources are gathered from each record while the record's target index equals the first's (loop condition `first.indexTarget == [i].indexTarget`)")
+        allrec = set()
     if len(allrec) > 1:
         res.violation(R, f, fnq, key0 + ":record", line, "arguments of %s are taken from different interaction records: %s" % (op, {k: sorted(v) for k, v in recs.items()}))
     want = {"P2P": {"source": "indexSrc", "target": "globalTargetPos", "pair": "arrayIndexSrc"},
@@ -362,6 +365,42 @@ def _same_source_run(facts, fn, call, recs):
             if key_ok and bump:
                 return True
     return False
+
+
+def _same_target_run(facts, fn, sr, call, recs, slots):
+    """the target's record differs from the sources' record, legitimately: the target is taken from the record bound at the start of a run
+    (`first = records[i]`, i advanced afterwards) and every source is appended inside a loop that continues only while
+    `first.indexTarget == records[i].indexTarget` - every record the sources come from has the target of the first"""
+    trecs = set(r for r, m in recs.get("target", set()))
+    srecs = set(r for role in ("source", "sources") for r, m in recs.get(role, set()))
+    if len(trecs) != 1 or len(srecs) != 1 or trecs == srecs or "@old" not in list(trecs)[0]:
+        return False
+    trec, srec = list(trecs)[0], list(srecs)[0]
+    body = tbf.body(fn)
+    tbf.link_parents(body)
+    fills = [e["fill_node"] for s_ in slots if s_.get("kind") == "vec" for e in s_.get("elems", []) if e.get("fill_node") is not None]
+    if not fills:
+        return False
+    want = set([trec + ".indexTarget", srec + ".indexTarget"])
+    for fl in fills:
+        ok = False
+        for L in [a for a in tbf.ancestors(fl) if a.get("k") in ("DoStmt", "WhileStmt", "ForStmt")]:
+            cond = L["c"][-1] if L.get("k") == "DoStmt" else (L["c"][-2] if L.get("k") == "WhileStmt" else L["c"][1])
+            if cond is None:
+                continue
+            pin0 = getattr(sr.fm, "_use_pin", None)
+            sr.fm._use_pin = cond.get("b")
+            try:
+                for x in walk(cond):
+                    if x.get("k") == "BinaryOperator" and x.get("op") == "==":
+                        a_, b_ = sr.fm.origin(kids(x)[0]), sr.fm.origin(kids(x)[1])
+                        if set([a_, b_]) == want:
+                            ok = True
+            finally:
+                sr.fm._use_pin = pin0
+        if not ok:
+            return False
+    return True
 
 
 def non_empty(facts, fn, sr, call, op, slots, res, R="C02.3.non-empty"):
